@@ -60,8 +60,12 @@ TOLERANCES = {
 }
 
 DTS = [("d1e-3", 1e-3), ("d0.1", 0.1), ("d0.75", 0.75), ("d10", 10.0)]
+# steel in the consistent unit system mm - tonne - s - MPa (props S): the time a wave needs to cross an element is ~1e-7 s
+# and realistic time steps are of order 1e-8 s, i.e. dt^2 is BELOW the machine epsilon (added after a seeded change that
+# floored dt^2 at eps in the corrector went undetected with O(1) constants)
+DTS_S = [("d4e-9", 4.0e-9), ("d1e-8", 1.0e-8), ("d1e-7", 1.0e-7), ("d2e-6", 2.0e-6)]
 NEWMARK = {"trap": (0.5, 0.25), "damped": (0.6, 0.3025), "b0.3": (0.5, 0.3)}
-PROPS = {"A": (1.0, 10.0, 0.0), "B": (2.5, 4.0, 0.3), "C": (1.5, 8.0, 0.45)}       # (density, E, nu); C only with pressure projection
+PROPS = {"A": (1.0, 10.0, 0.0), "B": (2.5, 4.0, 0.3), "C": (1.5, 8.0, 0.45), "S": (7.85e-9, 2.1e5, 0.3)}       # (density, E, nu); C only with pressure projection
 MESHES = ["s2x2", "d3x2"]
 ORDERS = [1, 2]
 MATS = ["le", "nh"]
@@ -79,7 +83,8 @@ def bounds(tier):
     return {"depth": d, "dt_alphabet": [l for l, _ in DTS], "histories_per_root": sum(4 ** k for k in range(1, d + 1)),
             "meshes": MESHES, "orders": ORDERS, "props(rho,E,nu)": PROPS, "newmark(gamma,beta)": NEWMARK,
             "materials": MATS, "bcs": BCS, "initial_fields": INITS,
-            "compiled_configurations": len(MESHES) * len(ORDERS) * 2 * len(NEWMARK) * len(MATS) + 4,
+            "compiled_configurations": len(MESHES) * len(ORDERS) * 2 * len(NEWMARK) * len(MATS) + 8,
+            "dt_alphabet_props_S(mm-t-s)": [l for l, _ in DTS_S],
             "roots_per_configuration": len(BCS) * len(INITS)}
 
 
@@ -94,6 +99,9 @@ def groups(tier, seed):
                                    "mesh": mesh, "order": order, "mat": mat, "props": pk, "nm": nm})
     # volume-averaged pressure projection (added after a seeded change in that option went undetected): nearly
     # incompressible neo-Hookean, quadratic elements, projection degree 0 and 1
+    for mat in ("le", "nh"):
+        for nm in ("trap", "damped"):
+            gs.append({"name": "d3x2-p2-%s-S-%s" % (mat, nm), "mesh": "d3x2", "order": 2, "mat": mat, "props": "S", "nm": nm})
     for pp in (1, 0):
         for nm in ("trap", "damped"):
             gs.append({"name": "d3x2-p2-nh-C-%s-pp%d" % (nm, pp), "mesh": "d3x2", "order": 2, "mat": "nh", "props": "C",
@@ -350,7 +358,8 @@ def run_group(g, tier, seed, rec):
                 rec.case(cid0, nontrivial=False, outcome="root", steps=2)
             sV = max(_ninf(V0), omega * _ninf(U0))
             sU, sA = sV / omega, sV * omega
-            uscale = max(_ninf(U0), _ninf(V0) * DTS[0][1], sU)
+            dts = DTS_S if g["props"] == "S" else DTS
+            uscale = max(_ninf(U0), _ninf(V0) * dts[0][1], sU)
             rx = types.SimpleNamespace(bc=bc, init=init, unk=unk, Muu=Muu, Kuu=Kuu, E0=E0, V0=V0, uscale=uscale)
 
             def canon(U, V, A):
@@ -368,7 +377,7 @@ def run_group(g, tier, seed, rec):
             for depth in range(1, maxd + 1):
                 nxt = []
                 for hist, U, V, A, t, etol, momtol in frontier:
-                    for lab, dt in DTS:
+                    for lab, dt in dts:
                         h2 = hist + (lab,)
                         cid = root + ";hist=" + ",".join(h2)
                         if rec.only is not None and not (rec.only == cid or rec.only.startswith(cid + ",")):
